@@ -235,7 +235,7 @@ def bundle_check(chk, rng):
 
 
 def run(tier: str, seed: int) -> int:
-    chk = C.Check("C19", tier, seed, "translation_validation")
+    chk = C.Check("C19", tier, seed, "proof")
     props = C.coq_gate(chk)
     C.use_repo()
     rng = chk.rng
